@@ -21,79 +21,79 @@ type ExtrusionPointDirection struct {
 	Direction vector3.Float64
 }
 
+// tangents returns for every point the normalised sum of the unit directions
+// of the segment arriving at it and of the segment leaving it (only one of
+// them at the two ends). A repeated point has no direction of its own: the
+// nearest different point on either side is used instead. Where the two
+// directions cancel (the path turns back on itself) the arriving direction is
+// kept. Every entry is therefore a finite unit vector as soon as the path has
+// two different points.
+func tangents(points []vector3.Float64) []vector3.Float64 {
+	if len(points) == 0 {
+		return nil
+	}
+
+	directions := make([]vector3.Float64, len(points))
+	for i, point := range points {
+		var in, out vector3.Float64
+		hasIn, hasOut := false, false
+
+		for j := i - 1; j >= 0; j-- {
+			if points[j] != point {
+				in = point.Sub(points[j]).Normalized()
+				hasIn = true
+				break
+			}
+		}
+
+		for j := i + 1; j < len(points); j++ {
+			if points[j] != point {
+				out = points[j].Sub(point).Normalized()
+				hasOut = true
+				break
+			}
+		}
+
+		switch {
+		case hasIn && hasOut:
+			sum := in.Add(out)
+			if sum.LengthSquared() < 1e-24 {
+				directions[i] = in
+			} else {
+				directions[i] = sum.Normalized()
+			}
+		case hasIn:
+			directions[i] = in
+		case hasOut:
+			directions[i] = out
+		default:
+			directions[i] = vector3.Up[float64]()
+		}
+	}
+
+	return directions
+}
+
 func directionsOfExtrusionPoints(points []ExtrusionPoint) []vector3.Float64 {
 	if len(points) == 0 {
 		return nil
 	}
 
-	if len(points) == 1 {
-		dir := vector3.Up[float64]()
-
-		if points[0].Direction != nil {
-			dir = points[0].Direction.Direction
-		}
-
-		return []vector3.Vector[float64]{
-			dir,
-		}
+	pointVec := make([]vector3.Float64, len(points))
+	for i, point := range points {
+		pointVec[i] = point.Point
 	}
 
-	directions := make([]vector3.Float64, len(points))
-
+	directions := tangents(pointVec)
 	for i, point := range points {
-
 		if point.Direction != nil {
 			directions[i] = point.Direction.Direction
-			continue
 		}
-
-		if i == 0 {
-			directions[i] = points[1].Point.Sub(point.Point).Normalized()
-			continue
-		}
-
-		if i == len(points)-1 {
-			directions[i] = point.Point.Sub(points[i-1].Point).Normalized()
-			continue
-		}
-
-		dirA := point.Point.Sub(points[i-1].Point).Normalized()
-		dirB := points[i+1].Point.Sub(point.Point).Normalized()
-		directions[i] = dirA.Add(dirB).Normalized()
 	}
 
 	return directions
 }
 
 func DirectionsOfPoints(points []vector3.Float64) []vector3.Float64 {
-	if len(points) == 0 {
-		return nil
-	}
-
-	if len(points) == 1 {
-		return []vector3.Vector[float64]{
-			vector3.Up[float64](),
-		}
-	}
-
-	directions := make([]vector3.Float64, len(points))
-
-	for i, point := range points {
-
-		if i == 0 {
-			directions[i] = points[1].Sub(point).Normalized()
-			continue
-		}
-
-		if i == len(points)-1 {
-			directions[i] = point.Sub(points[i-1]).Normalized()
-			continue
-		}
-
-		dirA := point.Sub(points[i-1]).Normalized()
-		dirB := points[i+1].Sub(point).Normalized()
-		directions[i] = dirA.Add(dirB).Normalized()
-	}
-
-	return directions
+	return tangents(points)
 }
